@@ -146,7 +146,7 @@ fn lowres_mix(rng: &mut Rng) -> Vec<u64> {
 /// chosen child; the last level keeps the chosen child's place filled by ALL its children, so that everything
 /// merges back level by level (one group per pass); `hole` removes one leaf so that it stops part-way
 fn deep_chain(rng: &mut Rng, levels: i32, hole: bool) -> Vec<u64> {
-    let start = match rng.below(4) { 0 => -1, 1 => 0, _ => rng.range(1, (29 - levels).max(1) as i64) as i32 };
+    let start = if levels >= 30 { -1 } else if levels == 29 { rng.range(-1, 0) as i32 } else { match rng.below(4) { 0 => -1, 1 => 0, _ => rng.range(1, (29 - levels).max(1) as i64) as i32 } };
     let mut cur = if start == -1 { 0 } else {
         let h = if start >= 2 { start - 1 } else { 0 };
         let s = if h == 0 { 0 } else { rng.next() & ((1u64 << (2 * h)) - 1) };
@@ -162,6 +162,33 @@ fn deep_chain(rng: &mut Rng, levels: i32, hole: bool) -> Vec<u64> {
     }
     if hole && out.len() > 1 { let i = rng.below(out.len() as u64) as usize; out.remove(i); }
     out
+}
+
+/// a run of consecutive curve positions at one resolution (the shape on which "sorted neighbours" fast paths work),
+/// optionally perturbed in place: 0 none, 1 adjacent swap, 2 one entry replaced by a cell of another resolution,
+/// 3 duplicate, 4 deletion, 5 two random positions swapped
+pub fn run_list(rng: &mut Rng, perturb: u64) -> Vec<u64> {
+    let r = rng.range(2, 29) as i32;
+    let h = r - 1;
+    let len = rng.range(8, 40) as u64;
+    let max = 1u64 << (2 * h);
+    let len = len.min(max);
+    let s0 = rng.below(max - len + 1);
+    let (face, seg) = (rng.below(12) as u8, rng.below(5) as usize);
+    let mut v: Vec<u64> = (0..len).map(|k| serialize(&A5Cell { origin_id: face, segment: seg, s: s0 + k, resolution: r }).unwrap()).collect();
+    let n = v.len();
+    match perturb {
+        1 if n >= 2 => { let i = rng.below(n as u64 - 1) as usize; v.swap(i, i + 1); }
+        2 => { let i = rng.below(n as u64) as usize; let rr = rng.range(0, r as i64) as i32;
+               let hh = if rr >= 2 { rr - 1 } else { 0 };
+               v[i] = serialize(&A5Cell { origin_id: (face + 1 + rng.below(11) as u8) % 12, segment: if rr == 0 { 0 } else { rng.below(5) as usize },
+                                          s: if hh == 0 { 0 } else { rng.next() & ((1u64 << (2 * hh)) - 1) }, resolution: rr }).unwrap(); }
+        3 => { let i = rng.below(n as u64) as usize; let x = v[i]; v.insert(rng.below(n as u64 + 1) as usize, x); }
+        4 if n >= 2 => { let i = rng.below(n as u64) as usize; v.remove(i); }
+        5 if n >= 2 => { let (i, j) = (rng.below(n as u64) as usize, rng.below(n as u64) as usize); v.swap(i, j); }
+        _ => {}
+    }
+    v
 }
 
 fn overlapping(rng: &mut Rng, base: &[u64]) -> Vec<u64> {
@@ -244,7 +271,8 @@ pub fn gen_c08(tier: &str, seed: u64, out: &str, mc: Option<&str>) -> Value {
     }
     let cases = if tier == "thorough" { 6000 } else { 500 };
     for i in 0..cases {
-        let base = match i % 5 { 0 => lowres_mix(&mut rng), 1 if i % 2 == 0 => { let l = 5 + rng.below(25) as i32; deep_chain(&mut rng, l, i % 4 == 0) }
+        let base = match i % 5 { 0 => lowres_mix(&mut rng), 1 if i % 2 == 0 => { let l = if i % 20 == 6 { 30 } else { 5 + rng.below(26) as i32 }; deep_chain(&mut rng, l, i % 4 == 0 && i % 20 != 6) }
+                                  2 if i % 2 == 0 => run_list(&mut rng, (i / 10 % 6) as u64),
                                   _ => random_antichain(&mut rng, if i % 7 == 0 { 250 } else { 60 }) };
         if base.is_empty() { continue; }
         let cells = if i % 3 == 0 { n_over += 1; overlapping(&mut rng, &base) } else { base };
@@ -277,7 +305,8 @@ pub fn gen_c10(tier: &str, seed: u64, out: &str, mc: Option<&str>) -> Value {
     }
     let cases = if tier == "thorough" { 8000 } else { 700 };
     for i in 0..cases {
-        let a = match i % 4 { 0 => lowres_mix(&mut rng), 1 => { let l = 4 + rng.below(26) as i32; deep_chain(&mut rng, l, i % 8 == 1) }
+        let a = match i % 4 { 0 => lowres_mix(&mut rng), 1 => { let l = if i % 16 == 1 { 30 } else if i % 16 == 5 { 29 } else { 4 + rng.below(27) as i32 }; deep_chain(&mut rng, l, i % 8 == 1 && i % 16 != 1) }
+                              2 if i % 8 == 2 => run_list(&mut rng, [0, 1, 4, 5][(i / 8 % 4) as usize]),
                               _ => random_antichain(&mut rng, if i % 9 == 0 { 250 } else { 60 }) };
         if a.is_empty() { continue; }
         t.emit(compact10_event(&a));
